@@ -15,6 +15,11 @@
      dkg/nodesigs.go      nodeSigBcast.exchange / broadcastCallback / allSigs
      cluster/lock.go      VerifySignatures / verifyNodeSignatures
 
+   Actions: Start / Recv / Return (exchange phases), NStart / NRecv / NReturn (node signatures), Verify, the step
+   barrier Advance, the operator's Cancel + ReturnCtx, and the faulty peer's FSend / FQuit / FForge / FNSig (arbitrary
+   arguments: the repertoire lives in NodeSigsMC).  Return / NReturn / Verify take the returned value as an argument
+   so that the trace specification can record what was observed and let the invariants below judge it.
+
    Peers are 1..n; the SHARE INDEX OF A PEER IS ITS PEER INDEX here (peer i holds share index i of every validator;
    the code's peerIdx is i-1).  Validators are 1..V.  F is the faulty peer (0: none).  The phases are separated by the
    ceremony's step barrier (dkg/sync; family DKGSync): a phase starts when every running peer finished the previous one.
